@@ -207,3 +207,24 @@ def merge_marker(twice, n_defaults, own_marker, **kw):
     if len(ms) != 1 or ms[0].get_attribute("style:class") != "theirs":
         notes.append(f"{len(ms)} marker(s) after the merge: {[m.get_attribute('style:class') for m in ms]}")
     return bool(notes), "; ".join(notes) or "ok"
+
+
+def merge_cross(k2, mine_in_auto, k1=0, family="paragraph", **kw):
+    n1, n2 = "vx" + MNAMES[k1], "vx" + MNAMES[k2]
+    dest, other = Document("text"), Document("text")
+    a, b = ("//office:automatic-styles", "//office:styles") if mine_in_auto else ("//office:styles", "//office:automatic-styles")
+    dest.styles.get_element(a).append(_mark(_mk(family, n1), "mine"))
+    other.styles.get_element(b).append(_mark(_mk(family, n2), "theirs"))
+    before = _snapshot(other)
+    dest.merge_styles_from(other)
+    defs = [s.get_attribute("style:class") for c in ("//office:styles", "//office:automatic-styles") for s in dest.styles.get_element(c).children
+            if s.get_attribute("style:family") == family and s.get_attribute("style:name") == n2]
+    got = dest.styles.get_style(family, n2)
+    notes = []
+    if _snapshot(other) != before:
+        notes.append("the other document was changed by the merge")
+    if defs != ["theirs"]:
+        notes.append(f"definitions of ({family}, {n2}) in styles.xml after the merge: {defs}")
+    if got is None or got.get_attribute("style:class") != "theirs":
+        notes.append("lookup does not give the other document's definition")
+    return bool(notes), "; ".join(notes) or "ok"
